@@ -66,8 +66,49 @@ def aux_target(rng, name="Aux"):
     return A.ContractSpec(name, fns), dict(kind="aux")
 
 
+TARGET2 = 0xAAAA0004
+SEL = lambda sig: int.from_bytes(abi.selector(sig), "big")
+
+
+def call_addr_from_slot0(sig):
+    """CALL (address stored in slot 0).sig(); the result is ignored"""
+    return [("push", SEL(sig) << 224, 32), 0x300, "MSTORE", 0, 0, 4, 0x300, 0, 0, "SLOAD", 0xFFFF, "CALL", "POP", "STOP"]
+
+
+def router_target(rng, name="Router"):
+    """keeps an address chosen by a caller and forwards trip()/untrip() to it: which contract is reached depends on state"""
+    # several functions reach the stored address; the one that matters is not always the first one executed from a state
+    pokes = [Fn("poke1", [], call_addr_from_slot0("untrip()")), Fn("poke2", [], call_addr_from_slot0("trip()")), Fn("poke3", [], call_addr_from_slot0("tripped()"))]
+    if rng.random() < 0.4:
+        pokes[0], pokes[1] = Fn("poke1", [], call_addr_from_slot0("trip()")), Fn("poke2", [], call_addr_from_slot0("untrip()"))
+    fns = [Fn("setTarget", [("a", ADDR)], arg(0) + [0, "SSTORE", "STOP"])] + pokes + [Fn("target", [], ret_word([0, "SLOAD"]), mutability="view", outputs=[ADDR])]
+    return A.ContractSpec(name, fns), dict(kind="router", addr_domain=[TARGET1, TARGET2, 0xBEEF])
+
+
+def factory_targets(rng):
+    """a factory whose target functions deploy children of different types at run time"""
+    childA = A.ContractSpec("ChildA", [Fn("noop", [], ["STOP"]), Fn("get", [], ret_word([0, "SLOAD"]), mutability="view", outputs=[U])], filename="ChildA.sol")
+    childB = A.ContractSpec("ChildB", [Fn("boom", [], [1, 0, "SSTORE", "STOP"]), Fn("calm", [], [0, 0, "SSTORE", "STOP"]), Fn("get", [], ret_word([0, "SLOAD"]), mutability="view", outputs=[U])],
+                            filename="ChildB.sol")
+
+    def mk(child):
+        init = child.creation()
+        toks = []
+        padded = init + bytes((-len(init)) % 32)
+        for i in range(0, len(padded), 32):
+            toks += [("push", int.from_bytes(padded[i : i + 32], "big"), 32), 0x400 + i, "MSTORE"]
+        return toks + [len(init), 0x400, 0, "CREATE", 0, "SSTORE", "STOP"]
+
+    order = [("mkA", childA), ("mkB", childB)]
+    if rng.random() < 0.5:
+        order.reverse()
+    fns = [Fn(n, [], mk(ch)) for n, ch in order] + [Fn("child", [], ret_word([0, "SLOAD"]), mutability="view", outputs=[ADDR])]
+    factory = A.ContractSpec("Factory", fns, filename="Factory.sol")
+    return factory, dict(kind="factory", children=[childA, childB])
+
+
 KINDS = {"counter": invgen.counter_target, "flags": invgen.flags_target, "owner": invgen.owner_target, "setter": setter_target, "clock": clock_target,
-         "vault": vault_target, "arr": arr_target}
+         "vault": vault_target, "arr": arr_target, "router": router_target, "factory": lambda rng: factory_targets(rng)}
 
 
 class Case2:
@@ -91,11 +132,18 @@ def make_case(rng, kind=None, depth=None, with_aux=None, filters="random", balan
     kind = kind or rng.choice(list(KINDS))
     target, meta = KINDS[kind](rng)
     aux = None
-    if with_aux if with_aux is not None else rng.random() < 0.5:
+    if kind == "router":
+        aux, _ = aux_target(rng)
+        aux2, _ = aux_target(rng, name="Aux2")
+        aux2.filename = "Aux2.sol"
+    elif kind == "factory":
+        aux = None
+    elif with_aux if with_aux is not None else rng.random() < 0.5:
         aux, _ = aux_target(rng)
     setup = []
     mem = 0x400
-    for slot, t in enumerate([target] + ([aux] if aux else [])):
+    deployed = [target] + ([aux] if aux else []) + ([aux2] if kind == "router" else [])
+    for slot, t in enumerate(deployed):
         init = t.creation()
         padded = init + bytes((-len(init)) % 32)
         for i in range(0, len(padded), 32):
@@ -132,6 +180,15 @@ def make_case(rng, kind=None, depth=None, with_aux=None, filters="random", balan
             invs.append(inv("invariant_solvent", call_view(TARGET0, getter(target, "bal")) + call_view(TARGET0, getter(target, "total")), ["GT"]))  # fails iff total > bal
     elif kind == "arr":
         invs.append(inv("invariant_zero", call_view(TARGET0, getter(target, "get")), ["ISZERO", "ISZERO"]))
+    elif kind == "router":
+        invs.append(inv("invariant_aux2", call_view(TARGET2, getter(aux2, "tripped")), ["ISZERO", "ISZERO"]))
+    elif kind == "factory":
+        # child = factory.child(); child == 0 or child.get() == 0
+        get_sel = getter(meta["children"][0], "get").selector
+        toks = call_view(TARGET0, getter(target, "child")) + ["DUP1", "ISZERO", "@none", "JUMPI",
+                ("push", int.from_bytes(get_sel, "big") << 224, 32), 0x300, "MSTORE", 32, 0x520, 4, 0x300, 0, "DUP6", 0xFFFF, "CALL", "POP", "POP", 0x520, "MLOAD", "@bad", "JUMPI", "STOP",
+                ":none", "STOP", ":bad"] + panic(1)
+        invs.append(Fn("invariant_child_calm", [], toks))
     if aux:
         invs.append(inv("invariant_aux", call_view(TARGET1, getter(aux, "tripped")), ["ISZERO", "ISZERO"]))
     fns += invs
@@ -140,6 +197,20 @@ def make_case(rng, kind=None, depth=None, with_aux=None, filters="random", balan
     c.contracts = {TARGET0: target}
     if aux:
         c.contracts[TARGET1] = aux
+    c.others = list(deployed)
+    c.dynamic = {}
+    if kind == "router":
+        c.contracts[TARGET2] = aux2
+        # only the router is a target: the auxiliary contracts are reached through the address it stores
+        if filters == "random":
+            filters = {"targetContracts": [TARGET0]}
+            if rng.random() < 0.3:
+                filters["excludeSenders"] = [0xCAFE]
+    elif kind == "factory":
+        c.dynamic = {ch.runtime(): ch for ch in meta["children"]}
+        c.others = [target] + list(meta["children"])
+        if filters == "random":
+            filters = {}
     c.filters = random_filters(rng, c) if filters == "random" else dict(filters or {})
     f = c.filters
     fns.append(Fn("targetSenders", [], abi_array_return(f.get("targetSenders", [])), mutability="view", outputs=[("array", ADDR, None)]))
@@ -252,6 +323,8 @@ BASE_DOMAIN = [0, 1, 2, 3, 5, 7, 0x1234, 2**200 + 5, 2**256 - 1]
 def domain(c, t):
     if t == U:
         return list(dict.fromkeys(BASE_DOMAIN + list(c.meta.get("consts", []))))
+    if t == ADDR:
+        return list(c.meta.get("addr_domain", [0xBEEF]))
     if t == UARR:
         ks = list(c.meta.get("consts", [])) + [0]
         return [[]] + [[k] for k in ks] + [[a, b] for a in (0, 1) for b in ks]
@@ -318,6 +391,10 @@ def check_invariants(c, W, ev, ts):
 
 def state_key(c, W, ts):
     k = []
+    dyn = sorted(a for a, acct in W.acc.items() if getattr(c, "dynamic", None) and acct.code and bytes(acct.code) in c.dynamic and a not in c.contracts)
+    for a in dyn:
+        acct = W.get(a)
+        k.append((a, bytes(acct.code)[:8], tuple(sorted((s, v) for s, v in acct.storage.items() if v))))
     for a in sorted(c.contracts):
         acct = W.get(a)
         k.append((a, tuple(sorted((s, v) for s, v in acct.storage.items() if v)), acct.balance))
@@ -352,6 +429,17 @@ def oracle(c, depth, max_nodes=4000):
                 for v in values:
                     for dt in dts:
                         calls.append(Call(a, fn, list(vals), s, v, dt))
+    def dyn_calls(W):
+        extra = []
+        if getattr(c, "dynamic", None):
+            for a, acct in list(W.acc.items()):
+                spec = c.dynamic.get(bytes(acct.code)) if acct.code else None
+                if spec is not None and a not in c.contracts:
+                    for fn in spec.fns:
+                        if fn.mutability not in ("view", "pure"):
+                            extra.append(Call(a, fn, [], senders[0], 0, 0))
+        return extra
+
     out = dict(inv={}, probe={}, explored=0, truncated=False, states=0, calls=len(calls), no_senders=not senders)
     r0 = run_calls(c, [])
     if r0 is None:
@@ -365,7 +453,12 @@ def oracle(c, depth, max_nodes=4000):
     for d in range(1, depth + 1):
         nxt = []
         for seq in frontier:
-            for call in calls:
+            if getattr(c, "dynamic", None):
+                r_ = run_calls(c, seq)
+                here = calls + (dyn_calls(r_[0]) if r_ else [])
+            else:
+                here = calls
+            for call in here:
                 out["explored"] += 1
                 if out["explored"] > max_nodes:
                     out["truncated"] = True
